@@ -98,7 +98,8 @@ class SBytes:
         if isinstance(i, slice):
             if isinstance(i.start, SInt) or isinstance(i.stop, (SInt, ZInt)):
                 return self._symslice(i)
-            return SBytes._norm_list(self.b[i])
+            # a fully concrete piece is handed out as real bytes (it then works with hashlib, struct and every bytes API)
+            return _norm(SBytes._norm_list(self.b[i]))
         if isinstance(i, SInt):
             c = i.concrete()
             if c is None:
